@@ -115,7 +115,7 @@ def handle (st : DState) (line : String) : DState × String :=
       | some true =>
         (match a with
          | .done _ _ =>
-           if stacks != "1" || (ta.final == tb.final && ta.exits == tb.exits) then (st, "agree " ++ Compare.clsName (Compare.cls a))
+           if stacks != "1" || (ta.final == tb.final && exitsAgree ta.exits tb.exits) then (st, "agree " ++ Compare.clsName (Compare.cls a))
            else (st, "stackdiffer final " ++ showStack ta.final ++ " ## " ++ showStack tb.final ++
                      s!" exits {ta.exits.length}/{tb.exits.length}")
          | _ => (st, "agree " ++ Compare.clsName (Compare.cls a)))
